@@ -324,24 +324,23 @@ theorem ginv_run (c : Config) (s : Sys) (steps : List Step) (hI : Inv c s) (hL :
       (cinv_step c s st hI hL hC) (einv_step c s st hI hL hC hE) (finv_step c s st hI hL hC hE hF)
       (ginv_step c s st hI hL hC hE hF hG)
 
-/-- **State Machine Safety from the invariants**: below both commit indexes, two nodes hold
-    the same entry (and do hold one) -/
-theorem state_machine_safety_of_inv (c : Config) (s : Sys) (hI : Inv c s) (hL : LMInv c s)
-    (hC : CInv c s) (hE : EInv c s) (hF : FInv c s) (hG : GInv c s)
-    (a b : Nat) (na nb : Node) (ha : s.nodes[a]? = some na) (hb : s.nodes[b]? = some nb)
-    (k : Nat) (hka : k < na.commit) (hkb : k < nb.commit) :
-    na.log[k]? = nb.log[k]? ∧ ∃ e, na.log[k]? = some e := by
-  -- the ordered case
-  have aux : ∀ (a b : Nat) (na nb : Node), s.nodes[a]? = some na → s.nodes[b]? = some nb →
-      k < na.commit → k < nb.commit →
-      ∀ Ta Na Tb Nb, Durable c s Ta Na → Durable c s Tb Nb → na.commit ≤ Na → nb.commit ≤ Nb →
-        na.log.take na.commit = (s.canon Ta).take na.commit →
-        nb.log.take nb.commit = (s.canon Tb).take nb.commit → Ta ≤ Tb →
-        na.log[k]? = nb.log[k]? ∧ ∃ e, na.log[k]? = some e := by
-    intro a b na nb ha hb hka hkb Ta Na Tb Nb hDa hDb hNa hNb htka htkb hle
+/-- two logs whose first `ca` / `cb` entries are prefixes of durable canonical prefixes agree
+    below both bounds (and hold an entry there) -/
+theorem prefix_agree (c : Config) (s : Sys) (hI : Inv c s) (hL : LMInv c s)
+    (hC : CInv c s) (hE : EInv c s) (hF : FInv c s)
+    (la lb : List Entry) (ca cb k : Nat) (hka : k < ca) (hkb : k < cb)
+    (Ta Na Tb Nb : Nat) (hDa : Durable c s Ta Na) (hDb : Durable c s Tb Nb)
+    (hNa : ca ≤ Na) (hNb : cb ≤ Nb)
+    (htka : la.take ca = (s.canon Ta).take ca) (htkb : lb.take cb = (s.canon Tb).take cb) :
+    la[k]? = lb[k]? ∧ ∃ e, la[k]? = some e := by
+  have aux : ∀ (la lb : List Entry) (ca cb : Nat), k < ca → k < cb →
+      ∀ Ta Na Tb Nb, Durable c s Ta Na → Durable c s Tb Nb → ca ≤ Na → cb ≤ Nb →
+        la.take ca = (s.canon Ta).take ca → lb.take cb = (s.canon Tb).take cb → Ta ≤ Tb →
+        la[k]? = lb[k]? ∧ ∃ e, la[k]? = some e := by
+    intro la lb ca cb hka hkb Ta Na Tb Nb hDa hDb hNa hNb htka htkb hle
     have hNale := durable_le c s Ta Na hDa
-    have h1 : na.log[k]? = (s.canon Ta)[k]? := getElem?_of_take_eq _ _ _ k hka htka
-    have h2 : nb.log[k]? = (s.canon Tb)[k]? := getElem?_of_take_eq _ _ _ k hkb htkb
+    have h1 : la[k]? = (s.canon Ta)[k]? := getElem?_of_take_eq _ _ _ k hka htka
+    have h2 : lb[k]? = (s.canon Tb)[k]? := getElem?_of_take_eq _ _ _ k hkb htkb
     have h3 : (s.canon Tb)[k]? = (s.canon Ta)[k]? := by
       by_cases heq : Ta = Tb
       · rw [heq]
@@ -356,11 +355,55 @@ theorem state_machine_safety_of_inv (c : Config) (s : Sys) (hI : Inv c s) (hL : 
     rw [h1]
     have hlt : k < (s.canon Ta).length := by omega
     exact ⟨(s.canon Ta)[k], List.getElem?_eq_getElem hlt⟩
+  rcases Nat.le_total Ta Tb with hle | hle
+  · exact aux la lb ca cb hka hkb Ta Na Tb Nb hDa hDb hNa hNb htka htkb hle
+  · obtain ⟨h1, e, he⟩ := aux lb la cb ca hkb hka Tb Nb Ta Na hDb hDa hNb hNa htkb htka hle
+    exact ⟨h1.symm, e, by rw [← h1]; exact he⟩
+
+/-- **State Machine Safety from the invariants**: below both commit indexes, two nodes hold
+    the same entry (and do hold one) -/
+theorem state_machine_safety_of_inv (c : Config) (s : Sys) (hI : Inv c s) (hL : LMInv c s)
+    (hC : CInv c s) (hE : EInv c s) (hF : FInv c s) (hG : GInv c s)
+    (a b : Nat) (na nb : Node) (ha : s.nodes[a]? = some na) (hb : s.nodes[b]? = some nb)
+    (k : Nat) (hka : k < na.commit) (hkb : k < nb.commit) :
+    na.log[k]? = nb.log[k]? ∧ ∃ e, na.log[k]? = some e := by
   obtain ⟨Ta, Na, hDa, _, hNa, htka⟩ := hG.commitOk a na ha (by omega)
   obtain ⟨Tb, Nb, hDb, _, hNb, htkb⟩ := hG.commitOk b nb hb (by omega)
-  rcases Nat.le_total Ta Tb with hle | hle
-  · exact aux a b na nb ha hb hka hkb Ta Na Tb Nb hDa hDb hNa hNb htka htkb hle
-  · obtain ⟨h1, e, he⟩ := aux b a nb na hb ha hkb hka Tb Nb Ta Na hDb hDa hNb hNa htkb htka hle
-    exact ⟨h1.symm, e, by rw [← h1]; exact he⟩
+  exact prefix_agree c s hI hL hC hE hF na.log nb.log na.commit nb.commit k hka hkb
+    Ta Na Tb Nb hDa hDb hNa hNb htka htkb
+
+/-- a durable prefix stays durable, and stays the same entries, across one step -/
+theorem durable_step (c : Config) (s : Sys) (st : Step) (hI : Inv c s) (hL : LMInv c s)
+    (hC : CInv c s) (hE : EInv c s) (T N : Nat) (hD : Durable c s T N) :
+    Durable c (sysStep c s st) T N ∧ ((sysStep c s st).canon T).take N = (s.canon T).take N := by
+  have hI' := inv_step c s st hI
+  have hL' := lm_step c s st hI hL
+  have hC' := cinv_step c s st hI hL hC
+  have hE' := einv_step c s st hI hL hC hE
+  apply sysStep_cases c s st hI
+    (fun s' => Inv c s' → LMInv c s' → CInv c s' → EInv c s' →
+      Durable c s' T N ∧ (s'.canon T).take N = (s.canon T).take N) _ _ _ hI' hL' hC' hE'
+  · intro _ _ _ _; exact ⟨hD, rfl⟩
+  · intro i nd nd' g msgs hnd htr hk hmC hno hmR hv _ _ hI2 hL2 hC2 hE2
+    have x := StepCtx.mk hI hL hC hE hI2 hL2 hC2 hE2 hnd htr hk hmC hmR hno hv
+    exact ⟨x.durableMono T N hD,
+      x.canonTake T N (durable_elected c s hC T N hD) (durable_le c s T N hD)⟩
+  · intro i j nd m _ _ _ _ _ _ _
+    exact ⟨durable_net_mono c s _ T N hD, rfl⟩
+
+theorem run_append (c : Config) (s : Sys) (a b : List Step) :
+    run c s (a ++ b) = run c (run c s a) b := by
+  unfold run; rw [List.foldl_append]
+
+theorem durable_run (c : Config) (s : Sys) (steps : List Step) (hI : Inv c s) (hL : LMInv c s)
+    (hC : CInv c s) (hE : EInv c s) (T N : Nat) (hD : Durable c s T N) :
+    Durable c (run c s steps) T N ∧ ((run c s steps).canon T).take N = (s.canon T).take N := by
+  induction steps generalizing s with
+  | nil => exact ⟨hD, rfl⟩
+  | cons st rest ih =>
+    obtain ⟨hD1, h1⟩ := durable_step c s st hI hL hC hE T N hD
+    obtain ⟨hD2, h2⟩ := ih (sysStep c s st) (inv_step c s st hI) (lm_step c s st hI hL)
+      (cinv_step c s st hI hL hC) (einv_step c s st hI hL hC hE) hD1
+    exact ⟨hD2, by rw [← h1]; exact h2⟩
 
 end Neumann.Raft
